@@ -533,7 +533,10 @@ def exhaustive_flag_states(tier):
             p.add('reset %s %d' % (a, 1 if st == 'resetT' else 0)); return a
     UN = ['scale $A %s' % f2b(2.0), 'pow $A %s' % f2b(2.0), 'exp $A', 'log $A', 'sin $A', 'cos $A', 'tan $A', 'sinh $A', 'cosh $A', 'tanh $A',
           'transpose $A', 'reshape $A 4', 'unsqueeze $A 0', 'squeeze $A 0', 'flatten $A 0', 'broadcast $A 2,2,2', 'slice $A 0:1',
-          'sumalong $A 0', 'maxalong $A 1', 'minalong $A 0', 'avgalong $A 1', 'varalong $A 0', 'stdalong $A 1', 'meanalong $A 0']
+          'sumalong $A 0', 'maxalong $A 1', 'minalong $A 0', 'avgalong $A 1', 'varalong $A 0', 'stdalong $A 1', 'meanalong $A 0',
+          # argument forms under which the operation is the identity on the values (where a shortcut would sit)
+          'reshape $A 2,2', 'broadcast $A 2,2', 'slice $A -', 'slice $A 0:2,0:2', 'slice $A 0:0', 'flatten $A 1',
+          'scale $A %s' % f2b(1.0), 'scale $A %s' % f2b(0.0), 'pow $A %s' % f2b(1.0), 'pow $A %s' % f2b(0.0)]
     BINOPS = ['add', 'sub', 'mul', 'div', 'dot', 'matmul', 'elmax', 'elmin', 'eq', 'ne', 'gt', 'ge', 'lt', 'le']
     for st in STATES:
         for ui, u in enumerate(UN):
@@ -568,12 +571,15 @@ def exhaustive_flag_states(tier):
             p.tag('exhaustive-flag-states', 'gradient-of-each-rule'); progs.append(p)
     for sa in STATES:
         for sb in STATES:
-            for o in BINOPS + ['concat', 'patch']:
+            for o in BINOPS + ['concat', 'patch', 'patch-full', 'patch-full-omitted', 'concat0']:
                 for same in ([False, True] if sa == sb else [False]):
                     p = Prog('fs_b_%s_%s_%s%s' % (sa, sb, o, '_same' if same else ''))
                     a = make(p, sa)
                     b = a if same else make(p, sb)
                     if o == 'concat': r = p.bind('concat %s,%s 1' % (a, b))
+                    elif o == 'concat0': r = p.bind('concat %s,%s 0' % (a, b))
+                    elif o == 'patch-full': r = p.bind('patch %s 0:2,0:2 %s' % (a, b))      # the source covers the whole target
+                    elif o == 'patch-full-omitted': r = p.bind('patch %s %s %s' % (a, '-' if sa < sb else '0:0', b))
                     elif o == 'patch':
                         c = p.bind('slice %s 0:1' % b); r = p.bind('patch %s 1:2 %s' % (a, c))
                     else: r = p.bind('%s %s %s' % (o, a, b))
